@@ -14,6 +14,7 @@ import (
 	"strings"
 	"sync"
 	"time"
+	"unsafe"
 
 	li "github.com/corazawaf/libinjection-go"
 
@@ -226,6 +227,7 @@ type c05Out struct {
 	TablesBefore uint64     `json:"tables_before"`
 	TablesAfter  uint64     `json:"tables_after"`
 	Calls        int        `json:"calls"`
+	Reused       int        `json:"reused"`  // asks made through a copy that landed on a collected input's block
 	Results      [][]string `json:"results"` // [op][input] -> result ("" = not asked; "!" + ... = inconsistent)
 	Bad          []string   `json:"bad"`
 	Events       []c05Event `json:"events,omitempty"`
@@ -245,6 +247,9 @@ func C05Work(cfgPath string) int {
 	for i, q := range cfg.Inputs {
 		inputs[i], _ = strconv.Unquote(q)
 	}
+	if cfg.Mode == "burst" {
+		return c05Burst(&cfg)
+	}
 	runtime.GOMAXPROCS(cfg.P)
 	type heldFp struct {
 		raw, copy string
@@ -256,6 +261,7 @@ func C05Work(cfgPath string) int {
 		bad    []string
 		events []c05Event
 		calls  int
+		reused int
 	}
 	privs := make([]*priv, cfg.G)
 	tablesBefore, _ := tablesDigest()
@@ -273,9 +279,96 @@ func C05Work(cfgPath string) int {
 			if cfg.Mode == "hist" {
 				p.events = make([]c05Event, 0, cfg.N)
 			}
+			// equal-length partners for the collected-and-reallocated probe
+			var sameLen map[int][]int
+			var eligible []int
+			if cfg.G == 1 {
+				sameLen = map[int][]int{}
+				for i, in := range inputs {
+					if len(in) >= 32 && len(in) <= 4096 {
+						sameLen[len(in)] = append(sameLen[len(in)], i)
+					}
+				}
+				for i, in := range inputs {
+					if len(sameLen[len(in)]) > 1 {
+						eligible = append(eligible, i)
+					}
+				}
+			}
 			<-start
 			// from here to the end of the loop: no synchronisation of any kind
 			for k := 0; k < cfg.N; k++ {
+				if sameLen != nil && k%1024 == 1023 {
+					// the same probe with a synthetic pair whose answers differ: an
+					// attack and a harmless text of exactly the same length
+					L := []int{96, 100, 128, 200, 256, 1000, 4000}[(k/1024)%7]
+					op := (k / 1024 / 7) % 2
+					att, ben := "1 union select 1,2,3 -- ", "hello world, nothing to see here "
+					if op == 1 {
+						att, ben = "<script>alert(1)</script> ", "plain text without markup "
+					}
+					mk := func(head string, fill byte) string {
+						b := make([]byte, L)
+						copy(b, head)
+						for j := len(head); j < L; j++ {
+							b[j] = fill
+						}
+						return string(b)
+					}
+					first, second := mk(ben, 'y'), mk(att, 'x')
+					if (k/1024)%2 == 1 {
+						first, second = second, first
+					}
+					want := c05Call(op, second+"")
+					freed := c05AskAndDrop(op, []byte(first))
+					runtime.GC()
+					runtime.GC()
+					// allocate copies of the second text until one lands on the block the
+					// first one occupied (the addresses are compared only to arrange the
+					// situation; the answer is judged as always), and ask that one
+					got, hit := "", false
+					sb := []byte(second)
+					var hold []string
+					for tries := 0; tries < 60000; tries++ {
+						cp2 := string(sb)
+						if uintptr(unsafe.Pointer(unsafe.StringData(cp2))) == freed {
+							got, hit = c05Call(op, cp2), true
+							break
+						}
+						hold = append(hold, cp2)
+					}
+					runtime.KeepAlive(hold)
+					p.calls += 2
+					if hit {
+						p.reused++
+					}
+					if hit && got != want && len(p.bad) < 8 {
+						p.bad = append(p.bad, fmt.Sprintf("goroutine %d: %s(%s) returned %q for a freshly allocated copy asked right after an equally long, already collected input with another answer; asked through a long-lived copy it returns %q", g, c05OpNames[op], strconv.Quote(trunc(second, 60)), got, want))
+					}
+				}
+				if len(eligible) > 0 && k%96 == 95 {
+					// sequential histories only: a private copy of one input is asked,
+					// dropped and collected; a private copy of ANOTHER input of the same
+					// length is allocated right away (it tends to land on the freed
+					// block) and asked. Its answer must be its own.
+					a := eligible[r.Intn(len(eligible))]
+					if grp := sameLen[len(inputs[a])]; len(grp) > 1 {
+						b := grp[r.Intn(len(grp))]
+						if b != a {
+							op := r.Intn(2)
+							cp := string(append([]byte(nil), inputs[a]...))
+							c05Call(op, cp)
+							cp = ""
+							runtime.GC()
+							cp2 := string(append([]byte(nil), inputs[b]...))
+							got := c05Call(op, cp2)
+							p.calls += 2
+							if want := c05Call(op, inputs[b]); got != want && len(p.bad) < 8 {
+								p.bad = append(p.bad, fmt.Sprintf("goroutine %d: %s(%s) returned %q for a freshly allocated copy asked right after an equally long, already collected input; the same process answers %q for the long-lived copy", g, c05OpNames[op], strconv.Quote(trunc(inputs[b], 80)), got, want))
+							}
+						}
+					}
+				}
 				i := r.Intn(len(inputs))
 				if len(inputs[i]) > 32<<10 && r.Intn(8) != 0 {
 					// inputs of 64 KiB-1 MiB are drawn eight times less often
@@ -343,6 +436,7 @@ func C05Work(cfgPath string) int {
 	out.Results = [][]string{make([]string, len(inputs)), make([]string, len(inputs))}
 	for g, p := range privs {
 		out.Calls += p.calls
+		out.Reused += p.reused
 		out.Bad = append(out.Bad, p.bad...)
 		for op := 0; op < 2; op++ {
 			for i, r := range p.res[op] {
@@ -363,6 +457,79 @@ func C05Work(cfgPath string) int {
 		return 2
 	}
 	return 0
+}
+
+// c05Burst: load. A few very large inputs (each call takes milliseconds) are
+// first answered sequentially, then by cfg.G goroutines released together,
+// three rounds each. An answer under load must equal the sequential answer
+// (load shedding, admission control or a time budget that changes the verdict
+// instead of the latency shows here).
+func c05Burst(cfg *c05Cfg) int {
+	runtime.GOMAXPROCS(cfg.P)
+	big := func(n int, unit string) string { return strings.Repeat(unit, n/len(unit)+1)[:n] }
+	type item struct {
+		op int
+		in string
+	}
+	items := []item{
+		// SQL: one very long word each (the word lexer walks all of it, in every reading)
+		{0, big(48<<20, "a") + " 7 apples"},
+		{0, big(40<<20, "b") + " hello 42"},
+		{0, big(32<<20, "x") + "' or 1=1 -- "},
+		{0, "1 union select " + big(24<<20, "c") + ",2 -- "},
+		{1, big(1<<20, "a") + "\" onmouseover=\"alert(1)"},
+		{1, big(4<<20, "lorem ipsum ") + "dolor"},
+		{1, big(800<<10, "a") + "' onerror='alert(1)"},
+		{1, big(3<<20, "x y ") + "<script>alert(1)</script>"},
+	}
+	want := make([]string, len(items))
+	for i, it := range items {
+		want[i] = c05Call(it.op, it.in)
+	}
+	var out c05Out
+	out.TablesBefore, _ = tablesDigest()
+	var mu sync.Mutex
+	start := make(chan struct{})
+	var wg sync.WaitGroup
+	for g := 0; g < cfg.G; g++ {
+		wg.Add(1)
+		go func(g int) {
+			defer wg.Done()
+			<-start
+			for round := 0; round < 3; round++ {
+				i := (g + round*7) % len(items)
+				if cfg.N == 1 {
+					i = (g + round) % 4 // this burst: the four SQL inputs only
+				}
+				got := c05Call(items[i].op, items[i].in)
+				mu.Lock()
+				out.Calls++
+				if got != want[i] && len(out.Bad) < 16 {
+					out.Bad = append(out.Bad, fmt.Sprintf("under load (%d goroutines released together on inputs of 0.8-48 MiB) %s(%d bytes, %q...%q) returned %q; the same process answered %q sequentially just before", cfg.G, c05OpNames[items[i].op], len(items[i].in), trunc(items[i].in, 12), items[i].in[len(items[i].in)-24:], got, want[i]))
+				}
+				mu.Unlock()
+			}
+		}(g)
+	}
+	close(start)
+	wg.Wait()
+	out.TablesAfter, _ = tablesDigest()
+	out.Results = [][]string{{}, {}}
+	b, _ := json.Marshal(&out)
+	if os.WriteFile(cfg.Out, b, 0o644) != nil {
+		return 2
+	}
+	return 0
+}
+
+// c05AskAndDrop asks about a private heap copy and returns the address it
+// occupied; the copy is unreachable when the function returns.
+//
+//go:noinline
+func c05AskAndDrop(op int, b []byte) uintptr {
+	s := string(b)
+	c05Call(op, s)
+	return uintptr(unsafe.Pointer(unsafe.StringData(s)))
 }
 
 // C05OneShot: a process whose first and only library call is this input.
@@ -409,7 +576,7 @@ func raceSignature(block string) string {
 func c05() *core.Check {
 	ch := &core.Check{
 		ID: "C05",
-		Rule: "race run: a race-instrumented build runs G goroutines (4/16/64) x GOMAXPROCS (2/4/16) hammering a shared input set (2600 inputs; thorough 5000: single-bit twins of short inputs, two-quote payloads, attacks padded to 64 KiB-1 MiB, rare-branch inputs, every prefix of ten rich inputs, near-duplicate families differing in one byte, every hand-written seed) with IsSQLi and IsXSS mixed, random Gosched, and no synchronisation between start barrier and final join; report blocks are counted in the GORACE log and de-duplicated by outermost library frames. " +
+		Rule: "race run: a race-instrumented build runs G goroutines (4/16/64) x GOMAXPROCS (2/4/16) hammering a shared input set (2600 inputs; thorough 5000: single-bit twins of short inputs, two-quote payloads, attacks padded to 64 KiB-1 MiB, rare-branch inputs, every prefix of ten rich inputs, near-duplicate families differing in one byte, every hand-written seed) with IsSQLi and IsXSS mixed, random Gosched, and no synchronisation between start barrier and final join; three load bursts (48, 160 and - on the SQL inputs only - 256 goroutines released together on eight inputs of 0.8-48 MiB, answers compared with the same process's sequential answers); report blocks are counted in the GORACE log and de-duplicated by outermost library frames. " +
 			"history run: permuted / interleaved call histories in fresh child processes with per-goroutine event logs; offline checker: one result per (operation,input) across all histories, goroutines and repetitions, equal to the fresh-process reference (process whose only call is that input); the shared tables are digested before and after every history / race run (quiescent points) and must be unchanged. " +
 			"Non-trivial = distinct (operation,input) pairs asked under at least two different predecessors or concurrently; evaluations = library calls made.",
 		Assumptions: []string{
@@ -562,6 +729,7 @@ func c05Run(r *core.Run) {
 			continue
 		}
 		totalCalls += out.Calls
+		w.Count("asks_on_reused_memory_blocks", uint64(out.Reused))
 		if out.TablesBefore != out.TablesAfter {
 			confirmed("shared-table-mutated", core.Case{Kind: "hist", A: int64(h)}, fmt.Sprintf("the digest of the shared tables (keywords, black lists, hex map) changed during history %d (%d calls)", h, out.Calls))
 		}
@@ -645,6 +813,30 @@ func c05Run(r *core.Run) {
 		for i := range first[op] {
 			w.Nontrivial(fmt.Sprintf("%d|%s", op, inputs[i]))
 		}
+	}
+
+	// --- load bursts (plain build) ----------------------------------------
+	for bi, g := range []int{48, 160, 256} {
+		cfg := c05Cfg{Mode: "burst", G: g, P: 16, Seed: r.Seed}
+		if g == 256 {
+			cfg.N = 1 // all 256 on the SQL inputs (each call walks 24-48 MiB)
+		}
+		saved := quoted
+		quoted = nil // the burst child builds its own (very large) inputs
+		out, lg, err := runChild(self, cfg, fmt.Sprintf("burst%d", bi), nil)
+		quoted = saved
+		if err != nil {
+			confirmed("fatal-under-concurrency", core.Case{Kind: "burst", A: int64(g)}, "load-burst child died:\n"+lg)
+			continue
+		}
+		for _, b := range out.Bad {
+			confirmed("history-dependence", core.Case{Kind: "burst", A: int64(g)}, b)
+		}
+		if out.TablesBefore != out.TablesAfter {
+			confirmed("shared-table-mutated", core.Case{Kind: "burst", A: int64(g)}, "the digest of the shared tables changed during a load burst")
+		}
+		w.Eval(out.Calls)
+		w.Count("load_burst_calls", uint64(out.Calls))
 	}
 
 	// --- race runs (race-instrumented build) ------------------------------
